@@ -57,7 +57,7 @@ CLAIMS["C15"] = dict(
     cat="proof",
     text="Safety-class obligations (bounds, pointer validity, overflow, internal COLA_ASSERTs, frames, initialisation) of the functions under contract only: ActionInfo's six "
          "constructors determine type/objPtr/firstMove from their arguments; IncSolver::mostViolated indexes in bounds for every list length; Blocks::cleanup (bounded); and "
-         "the safety obligations of the C05/C16/C01/C20 contract jobs. Histories of API calls, lifetimes, leaks, termination are undecided residue (most of C15).",
+         "the safety obligations of the C05/C16/C01/C20 contract jobs; ConnRef's destructor purges the router's pending-action queue for the connector in every state. Histories of API calls, lifetimes, leaks, termination are undecided residue (most of C15).",
     note=BASE_TB + "Only functions under contract, each under a call-site precondition. CBMC's treatment of uninitialised members as unconstrained values is the "
          "initialisation oracle. mostViolated runs with --no-pointer-check (elements unconstrained).",
     tech="CBMC code contracts + built-in safety checks on verbatim slices; two-construction determinism harness for uninitialised members; native placement-new replay",
@@ -102,7 +102,7 @@ CLAIMS["C17"] = dict(
          "floyd_warshall template equals an independent Bellman-Ford oracle, with zero diagonal, symmetry and the exact sentinel for unreachable pairs. dijkstra/johnsons "
          "(pairing heap) could not be brought within CBMC's reach and are not covered. Of the layout distance matrix only the two loop bodies of computePathLengths are under "
          "contract (unbounded for one index / pair: non-positive lengths become 1; reachable pairs scaled by idealLength and marked 2, unreachable keep the sentinel and 0), plus a bounded tail job: after the "
-         "post-processing D is not written again; bounded (3 nodes): dijkstra's main loop writes every entry of its output row.",
+         "post-processing D is not written again; bounded (3 nodes): dijkstra's main loop writes every entry of its output row; dijkstra_init's loop body at T = double keeps every weight exactly.",
     note=BASE_TB + "Template instantiated at an integer type (machine arithmetic treated as mathematical); bound stated per job; evidence level 'other' with the bounded jobs "
          "listed and obligations/discharged left at zero.",
     tech="CBMC bounded model checking of the verbatim template slice (concrete loop bounds, unwinding complete) against a Bellman-Ford oracle; native exhaustive replay",
@@ -116,7 +116,8 @@ CLAIMS["C07"] = dict(
          "constraint's dimension, invalid indices reported; guide-line variables are appended with their index as id. (2) project() constructs the solver over the lists it was "
          "given, reads every coordinate back after solve(), each equal to that variable's finalPosition. (3) checkUnsatisfiable reports every flagged constraint as itself with "
          "its maker; the same two links on the majorization path (GradientProjection::runSolver case Off, destroyVPSC). (4) makeFeasible's scan after each tentative "
-         "alternative: a flag on ANY constraint of the valid set is cleared and vetoes the alternative (any size, loop contract; plus a bounded job that survives rewrites). With C01 (normal return => every unflagged constraint satisfied) these give: after ONE projection every generated user constraint holds or is reported. "
+         "alternative: a flag on ANY constraint of the valid set is cleared and vetoes the alternative (any size, loop contract; plus a bounded job that survives rewrites). (5) SeparationConstraint's constructors composed with its translation: what the user "
+         "constructs (operands, gap of either sign, relation) is what VPSC receives. With C01 (normal return => every unflagged constraint satisfied) these give: after ONE projection every generated user constraint holds or is reported. "
          "NOT decided: that run()/makeFeasible() END in such a projection (the descent step after project() in applyForcesAndConstraints, makeFeasible's rollback), the 1e-4 "
          "tolerance, rectangle sizes, NaN/inf freedom, ConstrainedMajorizationLayout, PageBoundary/OrthogonalEdge constraints, virtual dispatch from setupVarsAndConstraints.",
     note=BASE_TB + "Level 'other' because the property itself is not proved, only these links; loop bodies are proved for one arbitrary element and the loops for any length with the "
@@ -130,7 +131,7 @@ CLAIMS["C08"] = dict(
     text="PARTIAL: only two translation links of C08 are decided, by contract proofs; the statement itself (no overlap / containment in the result) is not. "
          "(1) ClusterContainmentConstraints::generateSeparationConstraints: each member entry yields, in its own dimension only, the inequality that keeps the member at least its "
          "offset inside the named cluster boundary variable, creator set, every entry visited (loop body + loop shell, any number of entries); the constructor records, for "
-         "each child cluster, the four entries that hold its boundary variables inside the parent's. "
+         "each child cluster, the four entries that hold its boundary variables inside the parent's; ShapePair::operator< (the key order of the exemption set) is the lexicographic order. "
          "(2) NonOverlapConstraints::generateSeparationConstraints for one pair of plain shapes: a pair overlapping in the other axis by more than 0.0005 gets exactly one separation "
          "in this axis, the shape with the smaller centre first, gap = sum of the two half sizes; otherwise nothing. "
          "NOT decided: pairs involving clusters, the pair list / exemptions, the constructor's offsets, makeFeasible's four alternatives, the descent loop (C07 residue).",
